@@ -1,9 +1,247 @@
-(* C06 — one name, one UUID.  Only property theorems, each closed by [exact]. *)
+(* C06 — one name, one UUID.  Only property theorems, each closed by [exact].
+   Objects: [validate]/[step]/[run]/[render_n]/[run_trace]/[occs] of Uuid/Container.v (the mirror of
+   RapidProContainer.update_global_uuids / validate / render with the dictionary persisting),
+   instantiated with the hook tables regenerated from the source tree.  No size bound anywhere.
+   Side conditions, all of them invariants of reachable states (C06_history_invariant):
+     dict_wf          the two dictionaries have no duplicate key
+     flows_have_uuid  a flow object has a uuid (FlowContainer.__init__: uuid or generate_new_uuid()) *)
 From Coq Require Import List NArith Bool.
-From RPFT Require Import Base.Sexp Base.PyStr Base.Result Gen.Tables Uuid.UuidDict Uuid.Container Uuid.UuidFacts.
+From RPFT Require Import Base.Sexp Base.PyStr Base.Result Gen.Tables Uuid.UuidDict Uuid.Container
+  Uuid.UuidFacts Uuid.ContainerFacts Uuid.ContainerExamples.
 Import ListNotations.
 
-(* the regenerated tables satisfy what the proofs need *)
+(* the regenerated tables satisfy what the proofs need: record hooks and assign hooks visit
+   the same references; group actions, enter_flow and has_group are among them *)
 Theorem C06_tables_ok : uuid_tables_ok = true.
 Proof. exact uuid_tables_ok_true. Qed.
 Print Assumptions C06_tables_ok.
+
+(* ---- 1. one name, one uuid ---- *)
+(* after a successful validate: every occurrence (top-level group list, flow definitions, group
+   actions, has_group tests, enter_flow actions, campaign events and groups, trigger flow /
+   groups / exclude groups) carries a truthy uuid which is the dictionary's entry; hence equal
+   uuids for equal (kind, name); every referenced group is listed exactly once at top level;
+   every reference to a defined flow carries the flow's own uuid *)
+Theorem C06_one_name_one_uuid : forall st st',
+  dict_wf (st_d st) -> flows_have_uuid (st_c st) -> validate st = Ok st' ->
+  (forall k n u, In (k, (n, u)) (occs (st_c st')) -> truthy u = true /\ dget (sel k (st_d st')) n = Some u)
+  /\ (forall k n u1 u2, In (k, (n, u1)) (occs (st_c st')) -> In (k, (n, u2)) (occs (st_c st')) -> u1 = u2)
+  /\ (forall n u, In (KGroup, (n, u)) (occs (st_c st')) -> count_occ name_dec (map fst (groups (st_c st'))) n = 1)
+  /\ (forall f u, In f (flows (st_c st')) -> In (KFlow, (f_name f, u)) (occs (st_c st')) -> u = f_uuid f).
+Proof. exact one_name_one_uuid. Qed.
+Print Assumptions C06_one_name_one_uuid.
+
+(* the same for every reachable state: any container, any history of operations *)
+Theorem C06_one_name_one_uuid_reachable : forall c ops st st',
+  flows_have_uuid c -> Forall op_ok ops -> run ops (init c) = Ok st -> validate st = Ok st' ->
+  one_name_one_uuid_at st'.
+Proof. exact one_name_one_uuid_run. Qed.
+Print Assumptions C06_one_name_one_uuid_reachable.
+
+Example C06_one_name_one_uuid_nonvacuous :
+  dict_wf (st_d (init ex_c)) /\ flows_have_uuid (st_c (init ex_c)) /\ validate (init ex_c) = Ok ex_st
+  /\ In (KGroup, (nB, Some (Fresh 1))) (occs (st_c ex_st)) /\ In (KGroup, (nA, U1)) (occs (st_c ex_st))
+  /\ In (KFlow, (nH, Some (Fresh 0))) (occs (st_c ex_st))
+  /\ length (occs (st_c ex_st)) = 20%nat.
+Proof. exact one_name_one_uuid_nonvacuous. Qed.
+Print Assumptions C06_one_name_one_uuid_nonvacuous.
+
+(* the side condition is needed: a flow object WITHOUT uuid (which the constructor makes
+   impossible) would render its own uuid as None and the references to it with an invented one *)
+Example C06_one_name_one_uuid_needs_flow_uuid : exists st',
+  dict_wf (st_d (init ex_nouuid)) /\ validate (init ex_nouuid) = Ok st'
+  /\ In (KFlow, (nF, None)) (occs (st_c st')) /\ In (KFlow, (nF, Some (Fresh 0))) (occs (st_c st')).
+Proof. exact one_name_one_uuid_needs_flow_uuid. Qed.
+Print Assumptions C06_one_name_one_uuid_needs_flow_uuid.
+
+(* ---- 2. an explicit uuid wins, wherever it sits ---- *)
+(* [explicit_source st k n u]: u sits at ANY occurrence of (k, n) in the container (container
+   group list, flow definition, any reference, in any position) or in the persisted dictionary
+   (record_group_uuid / record_flow_uuid: sheet obj_id) *)
+Theorem C06_explicit_wins : forall st st' k n u,
+  dict_wf (st_d st) -> flows_have_uuid (st_c st) -> validate st = Ok st' ->
+  truthy u = true -> explicit_source st k n u ->
+  dget (sel k (st_d st')) n = Some u /\ forall u', In (k, (n, u')) (occs (st_c st')) -> u' = u.
+Proof. exact explicit_wins. Qed.
+Print Assumptions C06_explicit_wins.
+
+Example C06_explicit_wins_nonvacuous :
+  (validate (init ex_c) = Ok ex_st /\ truthy U1 = true /\ explicit_source (init ex_c) KGroup nA U1)
+  /\ (exists st', validate (init ex_late) = Ok st' /\ flows_have_uuid ex_late
+        /\ explicit_source (init ex_late) KGroup nA U1
+        /\ nth_error (occs (st_c (init ex_late))) 17 = Some (KGroup, (nA, U1))
+        /\ nth_error (occs (st_c (init ex_late))) 2 = Some (KGroup, (nA, None))
+        /\ nth_error (occs (st_c st')) 4 = Some (KGroup, (nA, U1))).
+Proof. exact explicit_wins_nonvacuous. Qed.
+Print Assumptions C06_explicit_wins_nonvacuous.
+
+(* ---- 3. two different explicit uuids for one name are rejected ---- *)
+Theorem C06_conflict_rejected : forall st k n u1 u2,
+  truthy u1 = true -> truthy u2 = true -> u1 <> u2 ->
+  explicit_source st k n u1 -> explicit_source st k n u2 ->
+  validate st = Err EConflict \/ validate st = Err EUnknownFlow.
+Proof. exact conflict_rejected. Qed.
+Print Assumptions C06_conflict_rejected.
+
+(* ... with the conflict error itself whenever no trigger names an unknown flow *)
+Theorem C06_conflict_rejected_exact : forall st k n u1 u2,
+  truthy u1 = true -> truthy u2 = true -> u1 <> u2 ->
+  explicit_source st k n u1 -> explicit_source st k n u2 ->
+  (forall t, In t (triggers (st_c st)) -> flow_known_now st (fst (t_flow t)) = true) ->
+  validate st = Err EConflict.
+Proof. exact conflict_rejected_exact. Qed.
+Print Assumptions C06_conflict_rejected_exact.
+
+Example C06_conflict_rejected_nonvacuous :
+  truthy U1 = true /\ truthy U2 = true /\ U1 <> U2
+  /\ explicit_source (init ex_conflict) KGroup nA U1 /\ explicit_source (init ex_conflict) KGroup nA U2
+  /\ (forall t, In t (triggers ex_conflict) -> flow_known_now (init ex_conflict) (fst (t_flow t)) = true)
+  /\ validate (init ex_conflict) = Err EConflict.
+Proof. exact conflict_rejected_nonvacuous. Qed.
+Print Assumptions C06_conflict_rejected_nonvacuous.
+
+(* "always THE conflict error" is refuted (still an error, as the property demands): *)
+Example C06_conflict_always_conflict_error_refuted :
+  explicit_source (init ex_conflict_ghost) KGroup nA U1 /\ explicit_source (init ex_conflict_ghost) KGroup nA U2
+  /\ validate (init ex_conflict_ghost) = Err EUnknownFlow.
+Proof. exact conflict_error_not_always_first. Qed.
+Print Assumptions C06_conflict_always_conflict_error_refuted.
+
+(* the only errors of validate: the assign loops never meet a missing key *)
+Theorem C06_validate_errors : forall st e, validate st = Err e -> e = EConflict \/ e = EUnknownFlow.
+Proof. exact validate_errors. Qed.
+Print Assumptions C06_validate_errors.
+
+(* ---- 4. rendering again changes nothing ---- *)
+(* the whole state — dictionary, counter, container — is a fixed point after the first call *)
+Theorem C06_validate_idempotent : forall st st',
+  dict_wf (st_d st) -> validate st = Ok st' -> validate st' = Ok st'.
+Proof. exact validate_idempotent. Qed.
+Print Assumptions C06_validate_idempotent.
+
+Theorem C06_render_n : forall k st st',
+  dict_wf (st_d st) -> validate st = Ok st' -> render_n (S k) st = Ok st'.
+Proof. exact render_n_fixed. Qed.
+Print Assumptions C06_render_n.
+
+Example C06_validate_idempotent_nonvacuous :
+  validate (init ex_c) = Ok ex_st /\ ctr (st_d ex_st) = 2%nat /\ st_d ex_st <> st_d (init ex_c)
+  /\ render_n 3 (init ex_c) = Ok ex_st.
+Proof. exact validate_idempotent_nonvacuous. Qed.
+Print Assumptions C06_validate_idempotent_nonvacuous.
+
+(* histories: the side conditions are invariants of every operation ... *)
+Theorem C06_history_invariant : forall ops st st',
+  hist_inv st -> Forall op_ok ops -> run ops st = Ok st' -> hist_inv st'.
+Proof. exact run_hist_inv. Qed.
+Print Assumptions C06_history_invariant.
+
+(* ... a truthy binding of the dictionary is never changed by any operation ... *)
+Theorem C06_binding_permanent : forall ops st st' k n u,
+  run ops st = Ok st' -> dget (sel k (st_d st)) n = Some u -> truthy u = true ->
+  dget (sel k (st_d st')) n = Some u.
+Proof. exact run_binding_permanent. Qed.
+Print Assumptions C06_binding_permanent.
+
+(* ... and all renders of one history agree with each other: in the trace that the
+   correspondence compares with the implementation, any two snapshots give one (kind, name)
+   the same truthy uuid, which is also the one the dictionary had at the start, if any *)
+Theorem C06_history_renders_agree : forall ops st i snaps stop,
+  hist_inv st -> Forall op_ok ops -> run_trace ops st i = (snaps, stop) ->
+  (forall s k n u, In s snaps -> In (k, (n, u)) (fst s) ->
+     truthy u = true /\ forall r, dget (sel k (st_d st)) n = Some r -> truthy r = true -> r = u)
+  /\ (forall s1 s2 k n u1 u2, In s1 snaps -> In s2 snaps ->
+        In (k, (n, u1)) (fst s1) -> In (k, (n, u2)) (fst s2) -> u1 = u2).
+Proof. exact run_trace_consistent. Qed.
+Print Assumptions C06_history_renders_agree.
+
+(* ---- 5. triggers ---- *)
+(* [flow_known_now st n]: n is a key of the flow dictionary, the name of a flow of the
+   container, or the name of an enter_flow action / campaign event flow — i.e. known to the
+   container in some way when the triggers are reached ("unknown", not "undefined") *)
+Theorem C06_trigger_unknown_flow_rejected : forall st t,
+  In t (triggers (st_c st)) -> flow_known_now st (fst (t_flow t)) = false ->
+  validate st = Err EUnknownFlow \/ validate st = Err EConflict.
+Proof. exact trigger_unknown_flow_rejected. Qed.
+Print Assumptions C06_trigger_unknown_flow_rejected.
+
+(* the trigger error is raised only for such a trigger *)
+Theorem C06_trigger_error_only_unknown : forall st,
+  validate st = Err EUnknownFlow ->
+  exists t, In t (triggers (st_c st)) /\ flow_known_now st (fst (t_flow t)) = false.
+Proof. exact trigger_error_only_unknown. Qed.
+Print Assumptions C06_trigger_error_only_unknown.
+
+(* when validate succeeds every trigger's flow reference carries the one uuid of that name *)
+Theorem C06_trigger_flow_resolved : forall st st' t,
+  dict_wf (st_d st) -> flows_have_uuid (st_c st) -> validate st = Ok st' -> In t (triggers (st_c st')) ->
+  truthy (snd (t_flow t)) = true
+  /\ dget (fd (st_d st')) (fst (t_flow t)) = Some (snd (t_flow t))
+  /\ forall u, In (KFlow, (fst (t_flow t), u)) (occs (st_c st')) -> u = snd (t_flow t).
+Proof. exact trigger_flow_resolved. Qed.
+Print Assumptions C06_trigger_flow_resolved.
+
+Example C06_trigger_unknown_nonvacuous :
+  In (trig (nZ, None) (nB, None)) (triggers (st_c (init ex_ghost)))
+  /\ flow_known_now (init ex_ghost) nZ = false
+  /\ validate (init ex_ghost) = Err EUnknownFlow.
+Proof. exact trigger_unknown_nonvacuous. Qed.
+Print Assumptions C06_trigger_unknown_nonvacuous.
+
+(* a trigger for a flow that is only referenced (it lives on the server) is accepted *)
+Example C06_trigger_referenced_only_accepted :
+  validate (init ex_c) = Ok ex_st
+  /\ flow_known_now (init ex_c) nH = true
+  /\ existsb (fun f => str_eqb (f_name f) nH) (flows ex_c) = false
+  /\ In {| t_flow := (nH, Some (Fresh 0)); t_groups := [(nB, Some (Fresh 1))]; t_exclude := [(nB, Some (Fresh 1))] |}
+       (triggers (st_c ex_st)).
+Proof. exact trigger_referenced_only_accepted. Qed.
+Print Assumptions C06_trigger_referenced_only_accepted.
+
+(* ---- 6. invented uuids ---- *)
+(* the invariant [fresh_inv_now]: no duplicate keys; the counter is above every Fresh of the
+   dictionary; no two (kind, name) share a Fresh; a Fresh in the container is the dictionary's
+   value.  It holds initially and is kept by every operation whose arguments carry no uuid
+   invented by this container (uuid4 modelled as a counter: a Fresh never equals a Given) *)
+Theorem C06_fresh_invariant_init : forall c, container_nofresh c -> fresh_inv_now (init c).
+Proof. exact fresh_inv_init. Qed.
+Print Assumptions C06_fresh_invariant_init.
+
+Theorem C06_fresh_invariant_step : forall st o st',
+  fresh_inv_now st -> op_nofresh o -> step st o = Ok st' -> fresh_inv_now st'.
+Proof. exact fresh_inv_step. Qed.
+Print Assumptions C06_fresh_invariant_step.
+
+(* so along any history: an invented uuid is bound to exactly one (kind, name), in the
+   dictionary and among the occurrences of the container *)
+Theorem C06_fresh_uuids_unique : forall c ops st',
+  container_nofresh c -> Forall op_nofresh ops -> run ops (init c) = Ok st' ->
+  (forall k n m, dget (sel k (st_d st')) n = Some (Some (Fresh m)) -> m < ctr (st_d st'))
+  /\ (forall k1 n1 k2 n2 m, dget (sel k1 (st_d st')) n1 = Some (Some (Fresh m)) ->
+        dget (sel k2 (st_d st')) n2 = Some (Some (Fresh m)) -> k1 = k2 /\ n1 = n2)
+  /\ (forall k n m, In (k, (n, Some (Fresh m))) (occs (st_c st')) -> dget (sel k (st_d st')) n = Some (Some (Fresh m)))
+  /\ (forall k1 n1 k2 n2 m, In (k1, (n1, Some (Fresh m))) (occs (st_c st')) ->
+        In (k2, (n2, Some (Fresh m))) (occs (st_c st')) -> k1 = k2 /\ n1 = n2).
+Proof. exact fresh_uuids_unique. Qed.
+Print Assumptions C06_fresh_uuids_unique.
+
+(* what one validate invents occurs nowhere in the state before, and it invents only for a
+   (kind, name) that has no explicit uuid anywhere *)
+Theorem C06_invented_is_new : forall st st' k n m,
+  fresh_inv_now st -> validate st = Ok st' ->
+  dget (sel k (st_d st')) n = Some (Some (Fresh m)) -> ctr (st_d st) <= m ->
+  (forall k0 n0, dget (sel k0 (st_d st)) n0 <> Some (Some (Fresh m)))
+  /\ (forall k0 n0, ~ In (k0, (n0, Some (Fresh m))) (occs (st_c st)))
+  /\ (forall u, truthy u = true -> ~ explicit_source st k n u).
+Proof. exact invented_is_new. Qed.
+Print Assumptions C06_invented_is_new.
+
+Example C06_fresh_uuids_nonvacuous :
+  container_nofresh ex_c /\ Forall op_nofresh ex_ops /\ Forall op_ok ex_ops /\ run ex_ops (init ex_c) = Ok ex_st2
+  /\ ctr (st_d ex_st2) = 3%nat
+  /\ In (KGroup, ([99%N], Some (Fresh 1))) (occs (st_c ex_st2))
+  /\ In (KGroup, ([100%N], Some (Fresh 2))) (occs (st_c ex_st2))
+  /\ In (KGroup, (nB, U2)) (occs (st_c ex_st2))
+  /\ length (fst (run_trace ex_ops (init ex_c) 0)) = 3%nat.
+Proof. exact fresh_uuids_nonvacuous. Qed.
+Print Assumptions C06_fresh_uuids_nonvacuous.
